@@ -782,6 +782,51 @@ func ruleMGetSort(p *Prog, r *Result) {
 				dedup = all
 			}
 			r.add(dedup, key+"|dedup", p.InstrPos(in), "the sorted key list is compacted (slices.Compact) so that a key listed twice is read - and returned - once")
+			// Compact only removes adjacent duplicates: it must see the sorted list
+			var compact *ssa.Call
+			backward(st.Val, func(x ssa.Value) bool {
+				if c, ok := x.(*ssa.Call); ok && isCompactCall(c) {
+					compact = c
+					return false
+				}
+				return true
+			})
+			if compact != nil {
+				after := false
+				allInstrs(fn, func(in2 ssa.Instruction) {
+					c, ok := in2.(*ssa.Call)
+					if !ok {
+						return
+					}
+					nm := p.calleeName(&c.Call)
+					if nm != "sort.Strings" && nm != "slices.Sort" && nm != "sort.Sort" && nm != "sort.Stable" {
+						if f := c.Call.StaticCallee(); f == nil || f.Origin() == nil || p.qualName(f.Origin()) != "slices.Sort" {
+							return
+						}
+					}
+					if len(c.Call.Args) > 0 && len(compact.Call.Args) > 0 && (c.Call.Args[0] == compact.Call.Args[0] || sharesRoot(c.Call.Args[0], compact.Call.Args[0])) && instrDominates(c, compact) {
+						after = true
+					}
+				})
+				r.add(after, key+"|dedup-after-sort", p.InstrPos(compact), "slices.Compact removes adjacent duplicates only: the list is sorted before it is compacted")
+			}
+			// every length recorded next to Keys in the same literal is the length of the stored list
+			for _, ref := range *base.(*ssa.Alloc).Referrers() {
+				fa, ok := ref.(*ssa.FieldAddr)
+				if !ok {
+					continue
+				}
+				_, fname, _, _ := fieldOfAddr(fa)
+				for _, r2 := range *fa.Referrers() {
+					st2, ok := r2.(*ssa.Store)
+					if !ok || st2 == st {
+						continue
+					}
+					if lv := lenOf(st2.Val); lv != nil {
+						r.add(lv == st.Val, key+"|len|"+fname, p.InstrPos(st2), "a length stored next to Keys ("+fname+") is the length of the list stored into Keys (the plans index Keys up to it)")
+					}
+				}
+			}
 		})
 	}
 	r.floor("stores to MultiGetPlan.Keys", n, 1)
